@@ -26,5 +26,15 @@ def handle : List String → Option String
       match cloneAll (fun ty => bases.lookup ty) s0 keys with
       | none => pure "KeyError"
       | some s => pure (if s.phs.isEmpty then "!" else ";".intercalate (s.phs.map fun p => s!"{p.id}/{encStr p.name}"))
+  | ["c13.rep", own, idx, lay, mas] => do
+      let oi (t : String) : Option (Option Int) := if t == "n" then some none else (t.toInt?).map some
+      let own ← oi own; let idx ← idx.toNat?
+      let lay ← if lay == "!" then some [] else (lay.splitOn ";").mapM fun t => match t.splitOn "/" with
+        | [i, ty, v] => do let i ← i.toNat?; let ty ← decStr ty; let v ← oi v; pure (i, ty, v)
+        | _ => none
+      let mas ← if mas == "!" then some [] else (mas.splitOn ";").mapM fun t => match t.splitOn "/" with
+        | [ty, v] => do let ty ← decStr ty; let v ← oi v; pure (ty, v)
+        | _ => none
+      pure (match reported own idx lay mas with | none => "n" | some v => toString v)
   | _ => none
 end Pptx.Drv.C13
